@@ -25,7 +25,8 @@ CONSTANTS
     Procs,      \* process ids
     Op,         \* Procs -> [op, name / topic / sub, ...]
     AtomicCreate,   \* TRUE: insert and attach of CreateSub are one step (a design WITHOUT the race)
-    AtomicDelete    \* TRUE: begin / remove / end of DeleteSub are one step
+    AtomicDelete,   \* TRUE: begin / remove / end of DeleteSub are one step
+    AttachChecksDeleting    \* TRUE: the topic refuses to attach a subscription that started being deleted
 
 VARIABLES
     pc,         \* Procs -> program counter
@@ -88,7 +89,8 @@ StepCreateSub(p) ==
                      ELSE UNCHANGED T /\ SetPc(p, "attach")
                   /\ UNCHANGED <<now, tmap, torder, reg, pubs>>
        \/ /\ pc[p] = "attach"
-          /\ T' = [T EXCEPT ![h[p].t].att = PutIfAbsent(@, Op[p].name, h[p].s)]
+          /\ T' = IF AttachChecksDeleting /\ S[h[p].s].st # "live" THEN T
+                  ELSE [T EXCEPT ![h[p].t].att = PutIfAbsent(@, Op[p].name, h[p].s)]
           /\ UNCHANGED <<now, tmap, smap, S, torder, sorder, reg, pubs, h>>
           /\ SetPc(p, "done")
 
